@@ -139,8 +139,10 @@ inductive Kind where | bp | bbp | wq | mb
 def isShardWorkerEv (s : Nat) : Ev → Bool
   | .wup s' => s' = s | .wdn s' => s' = s | .wend s' => s' = s | _ => false
 
-/-- Which stranding is it?  Only observable necessary conditions of the two confirmed
-    windows (and of the batch pool's cancel-on-close exit) give the narrow class. -/
+/-- Which stranding is it?  The classes name the three defects repaired in /repo (mailbox drain window,
+    bounded-pool submit select, batch-pool cancel-on-close exit) by their observable necessary conditions,
+    so a regression to an old protocol is reported under its name; all of them are violations.  Only
+    `batchpool-cancelrunning-overload` is still an open known finding. -/
 def strandClass (k : Kind) (cancelCfg : Nat) (l : List Ev) (p : Pos) (t : Nat) : String :=
   let cb := firstIdx (· == .closeBeg) l
   let ce := firstIdx (· == closeOk) l
